@@ -234,8 +234,10 @@ K.loop(2, var="j", unroll=9)       # padding with -1 from k to 9: unrolled with 
 # the same relation in the form callers use (C06 reachability): every listed cell drains into idxdown[k], and every cell that does is listed
 UP_SOUND = "forall(p, 0 <= p < 9, idxup[9*k + p] == -1 or (valid_cell(nrows, ncols, idxup[9*k + p]) and down(nrows, ncols, flowdir[idxup[9*k + p]], idxup[9*k + p]) == idxdown[k]))"
 UP_COMPLETE = "forall(c, 0 <= c < nrows*ncols, implies(down(nrows, ncols, flowdir[c], c) == idxdown[k], exists(p, 0 <= p < 9, idxup[9*k + p] == c)))"
+UP_DISTINCT = "forall(p1, 0 <= p1 < 9, forall(p2, p1 < p2 < 9, idxup[9*k + p1] == -1 or idxup[9*k + p1] != idxup[9*k + p2]))"
 K.behavior("esri_rel", FDC_IS + " and forall(k, 0 <= k < nval, valid_cell(nrows, ncols, idxdown[k]))",
-           "forall(k, 0 <= k < nval, " + UP_SOUND + " and " + UP_COMPLETE + ")", props=["C06"])
+           "forall(k, 0 <= k < nval, " + UP_SOUND + " and " + UP_COMPLETE + " and " + UP_DISTINCT + ")", props=["C06"])
+K.loops[0].invariant.append("forall(k, 0 <= k < i, " + UP_DISTINCT + ")")
 K.loops[0].invariant.append("implies(" + FDC_IS + ", forall(k, 0 <= k < i, " + UP_SOUND + "))")
 K.loops[0].invariant.append("implies(" + FDC_IS + ", forall(k, 0 <= k < i, " + UP_COMPLETE + "))")
 
